@@ -86,17 +86,23 @@ def c05_symbolic(sk: Any, mode: str, ctx: Ctx):
     is_eq = kind(tree) == "eq"
 
     def ask_valid(prop: Any) -> Tuple[str, Any]:
+        """valid?(axioms -> prop), asking first without the power axioms."""
         nonlocal asked, proved
         asked += 1
         r, m = ctx.valid(prop)
+        if r == "cex" and AX[0]:
+            r, m = ctx.valid(z3.Implies(z3.And(AX[0]), prop))
         if r == "valid":
             proved += 1
         return r, m
+
+    AX: List[Any] = [[]]
 
     if missing:
         if out[0] != "ValueError":
             problems.append(("missing-variable", f"variables {missing} have no value but evaluate "
                              f"{'returned' if out[0] == 'value' else 'raised ' + out[1]}"))
+            model = ctx.ensure_model()
         return problems, asked, proved, model, prov, states
     # every variable has a value
     try:
@@ -110,7 +116,8 @@ def c05_symbolic(sk: Any, mode: str, ctx: Ctx):
     except Undefined:
         return problems, asked, proved, model, prov, states
     domc = z3.And(dom) if dom else z3.BoolVal(True)
-    ax = powr_axioms(oracle)
+    ax: List[Any] = []
+    AX[0] = powr_axioms(oracle)
     if out[0] == "raised":
         problems.append(("unexpected-exception", f"evaluate raised {out[1]}"))
         model = ctx.ensure_model()
@@ -299,6 +306,13 @@ BIG = [
     ("pow", ("var", "x"), ("lit", -2)), ("mul", ("pow", ("const", 0), ("lit", 33)), ("pow", ("const", 1), ("lit", 33))),
     ("fact", ("lit", 25)), ("mul", ("fact", ("lit", 21)), ("var", "x")), ("pow", ("pow", ("var", "x"), ("lit", 8)), ("lit", 9)),
     ("add", ("pow", ("lit", 10), ("lit", 30)), ("var", "x")), ("sub", ("pow", ("var", "x"), ("lit", 70)), ("pow", ("var", "x"), ("lit", 70))),
+    # integers that differ by less than one ulp of a double must still compare as different
+    ("eq", ("add", ("pow", ("lit", 2), ("lit", 53)), ("lit", 1)), ("pow", ("lit", 2), ("lit", 53))),
+    ("eq", ("fact", ("lit", 25)), ("add", ("fact", ("lit", 25)), ("lit", 1))),
+    ("eq", ("sub", ("pow", ("lit", 10), ("lit", 30)), ("lit", 1)), ("pow", ("lit", 10), ("lit", 30))),
+    ("eq", ("mul", ("lit", 3), ("lit", 10**20)), ("add", ("mul", ("lit", 3), ("lit", 10**20)), ("lit", 7))),
+    ("eq", ("add", ("lit", 2**53), ("var", "x")), ("add", ("lit", 2**53), ("var", "x"))),
+    ("sub", ("lit", 9007199254740993), ("lit", 9007199254740992)), ("mul", ("lit", 10**17 + 1), ("lit", 10**17 - 1)),
 ]
 
 
